@@ -21,6 +21,12 @@ def run_c06(tier, seed):
     res = vlib.run_resumable(binary, ["--prop", "c06", "--seed", str(seed), "--cases", str(60 if tier == "quick" else 4000), "--depth", "4" if tier == "quick" else "6"],
                              nsh, timeout=300 if tier == "quick" else 7200, work=work)
     counters, distinct, samples, stats = vlib.collect_runs(v, res)
+    # writes queued from a foreign thread for live and vanished peers, and bursts of them while the worker is busy (shared with C13's server-level part)
+    res2 = vlib.run_resumable(binary, ["--prop", "c13s", "--kp", "c06", "--seed", str(seed + 17), "--cases", str(4 if tier == "quick" else 100)], 4,
+                              timeout=300 if tier == "quick" else 7200, work=work, tag="q")
+    c2, d2, s2, st2 = vlib.collect_runs(v, res2)
+    distinct |= d2
+    stats["cross_thread_write_queue"] = dict(scenarios=int(c2.get("evaluations", 0)), counts=c2.get("counts", {}), **st2)
     v.assumptions += ["socket outcomes are injected by link-time interposition of send/sendfile in the harness binary (no change to the repository)",
                       "the 'always fulfilled' half is judged at a logical point: a marker write queued after everything else has arrived at the peer"]
     return _finish(v, work, counters, distinct, samples, stats,
@@ -109,10 +115,18 @@ def run_c09(tier, seed):
     res = vlib.run_resumable(binary, ["--seed", str(seed), "--cases", str(8 if tier == "quick" else 120), "--maxreq", "120" if tier == "quick" else "400"], nproc,
                              timeout=300 if tier == "quick" else 7200, work=work, env=vlib.SAN_ENV_EXPLORE)
     counters, distinct, samples, stats = vlib.collect_runs(v, res, judge_report=_tsan_judge)
+    # connection storm without the sanitizer (speed): 4-10 client threads x 300 short-lived connections per round, a third of
+    # them leaving before their answer is written, descriptor numbers reused at a high rate
+    pbin = vlib.build_harness("mt", "plain")
+    res2 = vlib.run_resumable(pbin, ["--prop", "storm", "--seed", str(seed + 7), "--cases", str(4 if tier == "quick" else 80)], 8,
+                              timeout=300 if tier == "quick" else 7200, work=work, tag="storm")
+    c2, d2, s2, st2 = vlib.collect_runs(v, res2)
+    distinct |= d2
+    stats["connection_storm"] = dict(rounds=int(c2.get("evaluations", 0)), counts=c2.get("counts", {}), **st2)
     v.assumptions += ["interleavings are whatever the OS scheduler produces under ThreadSanitizer; each configuration is run in several processes (race reports vary from run to run)",
                       "ThreadSanitizer reports without a Pistache frame (harness or libstdc++ internals) are not judged; shutdown()/destruction gets a 30 s x load bound"]
     return _finish(v, work, counters, distinct, samples, stats,
-                   "endpoint with w in {1,2,4,8} workers sharing one Rest::Router (routes under GET/POST/PUT/DELETE/PATCH/OPTIONS/HEAD) x 1-12 keep-alive client threads x 5-120 requests hitting every method table, 405 (other method registered) and 404, handlers answering from a foreign thread; each response's tag must be the function of its request and no unsolicited bytes may arrive; shutdown() fired after the load, idle with connections open, mid-load, with slow handlers in flight, before any load, twice, after 2w+2 silent connections (nothing / partial head / partial body, opened together so that they expire in one tick on every worker) each got exactly one 408 and EOF from a 1 s read time-out, and while accept4 fails with EMFILE (soft descriptor limit lowered, a connection pending); afterwards the port must refuse and /proc/self/task be back at the baseline. Oracle for shared state: ThreadSanitizer. distinct = (workers, clients, shutdown point)")
+                   "endpoint with w in {1,2,4,8} workers sharing one Rest::Router (routes under GET/POST/PUT/DELETE/PATCH/OPTIONS/HEAD) x 1-12 keep-alive client threads x 5-120 requests hitting every method table, 405 (other method registered) and 404, handlers answering from a foreign thread; each response's tag must be the function of its request and no unsolicited bytes may arrive; shutdown() fired after the load, idle with connections open, mid-load, with slow handlers in flight, before any load, twice, after 2w+2 silent connections (nothing / partial head / partial body, opened together so that they expire in one tick on every worker) each got exactly one 408 and EOF from a 1 s read time-out, and while accept4 fails with EMFILE (soft descriptor limit lowered, a connection pending); connection churn beside the keep-alive clients, a third of the short-lived connections leaving without waiting for their answer (answers written late by a slow handler or from a foreign thread), plus a storm stage without the sanitizer (32 rounds of 4-10 threads x 300 connections) in which every answer that is read must belong to the request sent on that connection; afterwards the port must refuse and /proc/self/task be back at the baseline. Oracle for shared state: ThreadSanitizer. distinct = (workers, clients, shutdown point)")
 
 def run_c15(tier, seed):
     v = vlib.Verdict("C15", tier, seed, level="exploration")
